@@ -4,6 +4,7 @@ import (
 	"fmt"
 	"go/ast"
 	"go/token"
+	"go/types"
 	"regexp"
 	"sort"
 	"strings"
@@ -493,86 +494,125 @@ func checkIsUsed(c *core.Ctx) {
 		{"NodeTypeUnnest", ".Unnest.Field", "unnest() names the list column it expands"},
 		{"NodeTypeOrderSensitiveTransform", ".Name", "ORDER BY … LIMIT breaks ties on the order key by comparing whole records, so every column decides which rows are the first n"},
 	}
-	setsUsed := func(n ast.Node) bool {
-		found := false
-		ast.Inspect(n, func(m ast.Node) bool {
-			if as, ok := m.(*ast.AssignStmt); ok && len(as.Lhs) == 1 && len(as.Rhs) == 1 && core.ExprStr(as.Rhs[0]) == "true" {
-				found = true
+	// Each consumer's arm is interpreted with the comparison "this consumer names the field" answered true (helpers
+	// such as a has-field function are followed, a loop over fields is one abstract iteration): on every path the
+	// field must then be marked used (the flag set, or true returned). The conditions under which the consumer really
+	// depends on the column are answered so that it does; any further condition forks, and its false branch is a path
+	// without the mark — "the column only counts as used under an extra condition".
+	info := fn.Info()
+	nodeParam := fn.Decl.Type.Params.List[1].Names[0].Name
+	runArm := func(body []ast.Stmt, suffix string, ftype *ast.FuncType) (string, int) {
+		in := newInterp(p, fn)
+		in.MaxPaths = 4000
+		in.Hooks.Loop = func(st *absint.State, loop ast.Stmt) *absint.LoopSpec {
+			return &absint.LoopSpec{Cases: []string{"f"}, MaxIter: 1, MinIter: 1, RefStep: func(ref, cs string) string { return ref }}
+		}
+		in.Hooks.Store = func(st *absint.State, obj types.Object, v absint.Val) {
+			if v != nil && absint.IsTrue(v) && obj.Pos() >= fn.Decl.Body.Pos() && obj.Pos() <= fn.Decl.Body.End() {
+				if b, ok := obj.Type().Underlying().(*types.Basic); ok && b.Kind() == types.Bool {
+					st.Emit("USED", token.NoPos)
+				}
 			}
-			if rs, ok := m.(*ast.ReturnStmt); ok && len(rs.Results) == 1 && core.ExprStr(rs.Results[0]) == "true" {
-				found = true
+		}
+		in.Hooks.Cond = func(st *absint.State, atom string) (bool, bool) {
+			m := regexp.MustCompile(`^\((.*) == (.*)\)$`).FindStringSubmatch(atom)
+			if m != nil {
+				x, y := m[1], m[2]
+				if (y == fieldParam && strings.HasSuffix(x, suffix)) || (x == fieldParam && strings.HasSuffix(y, suffix)) {
+					return true, true
+				}
+				// the consumer depends on the column exactly when: an order-sensitive transform has a limit (without
+				// one every row is emitted whatever the tie-break); a table-valued function's argument is a descriptor
+				if strings.Contains(atom, ".OrderSensitiveTransform.Limit") && (x == "nil" || y == "nil") {
+					return false, true
+				}
+				if strings.Contains(atom, "TableValuedFunctionArgumentType") {
+					return true, true
+				}
 			}
-			return true
-		})
-		return found
+			return false, false
+		}
+		outs, err := in.Run(ftype, nil, &ast.BlockStmt{List: body}, nil, "")
+		if err != nil {
+			return err.Error(), 0
+		}
+		if len(outs) == 0 {
+			return "no path", 0
+		}
+		for _, o := range outs {
+			marked := false
+			for _, e := range o.Events {
+				if e.Name == "USED" {
+					marked = true
+				}
+			}
+			if o.Kind == "return" && len(o.Values) == 1 && absint.IsTrue(o.Values[0]) {
+				marked = true
+			}
+			if !marked {
+				var extra []string
+				for a, v := range o.Assumed {
+					extra = append(extra, fmt.Sprintf("%s=%v", a, v))
+				}
+				sort.Strings(extra)
+				return "the column only counts as used under an extra condition (a path without the mark assumes " + strings.Join(extra, ", ") + ")", len(outs)
+			}
+		}
+		return "", len(outs)
 	}
-	// conditions that may stand between a consumer's case and its comparison with the field: the consumer only
-	// depends on the column under exactly this condition; anything narrower prunes a column that is still needed
-	allowedGuards := map[string]bool{
-		// without a limit every row is emitted, whatever the tie-break; with one (and with or without order keys:
-		// rows are ordered by key, then by the whole record) the column takes part in choosing the first n
-		"node.OrderSensitiveTransform.Limit != nil": true,
-	}
-	narrowed := ""
-	comparesField := func(n ast.Node, suffix string) bool {
-		found := false
-		core.WalkStack(n, func(m ast.Node, stack []ast.Node) bool {
-			is, ok := m.(*ast.IfStmt)
-			if !ok {
-				return true
-			}
-			be, ok := core.Unparen(is.Cond).(*ast.BinaryExpr)
-			if !ok || be.Op != token.EQL {
-				return true
-			}
-			x, y := core.ExprStr(be.X), core.ExprStr(be.Y)
-			if (y == fieldParam && strings.HasSuffix(x, suffix)) || (x == fieldParam && strings.HasSuffix(y, suffix)) {
-				if setsUsed(is.Body) {
-					found = true
-					for _, anc := range stack {
-						if outer, ok := anc.(*ast.IfStmt); ok && outer != is && !allowedGuards[core.ExprStr(outer.Cond)] {
-							narrowed = fmt.Sprintf("%s: the column only counts as used under the extra condition `%s`", p.Pos(outer.Pos()), core.ExprStr(outer.Cond))
-							found = false
-						}
+	for _, cs := range consumers {
+		var arm *ast.CaseClause
+		ast.Inspect(fn.Decl.Body, func(n ast.Node) bool {
+			if cc, isCC := n.(*ast.CaseClause); isCC {
+				for _, e := range cc.List {
+					if strings.HasSuffix(core.ExprStr(e), cs.caseConst) {
+						arm = cc
 					}
 				}
 			}
 			return true
 		})
-		return found
+		detail := fmt.Sprintf("isUsed does not look at %s (%s): the column is pruned although it is needed — results change or the plan breaks only when optimization is on", cs.caseConst, cs.what)
+		if arm == nil {
+			c.Bad("OPT4", key+"/"+cs.caseConst, fn.Decl.Pos(), 1, detail)
+			continue
+		}
+		why, n := runArm(arm.Body, cs.suffix, &ast.FuncType{Params: &ast.FieldList{}})
+		if why != "" {
+			detail = fmt.Sprintf("isUsed does not mark the column as used for %s on every path (%s): %s — the column is pruned although it is needed", cs.caseConst, cs.what, why)
+		}
+		c.Decide(why == "", "OPT4", key+"/"+cs.caseConst, arm.Pos(), n, "consulted", detail)
 	}
-	for _, cs := range consumers {
-		ok := false
-		ast.Inspect(fn.Decl.Body, func(n ast.Node) bool {
-			cc, isCC := n.(*ast.CaseClause)
-			if !isCC {
-				return true
+	// the plan root's own schema: the whole function, with "a field of the root's schema has this name" true
+	{
+		in := newInterp(p, fn)
+		in.MaxPaths = 4000
+		in.Hooks.Loop = func(st *absint.State, loop ast.Stmt) *absint.LoopSpec {
+			return &absint.LoopSpec{Cases: []string{"f"}, MaxIter: 1, MinIter: 1, RefStep: func(ref, cs string) string { return ref }}
+		}
+		in.Hooks.Cond = func(st *absint.State, atom string) (bool, bool) {
+			m := regexp.MustCompile(`^\((.*) == (.*)\)$`).FindStringSubmatch(atom)
+			if m == nil {
+				return false, false
 			}
-			for _, e := range cc.List {
-				if strings.HasSuffix(core.ExprStr(e), cs.caseConst) && comparesField(cc, cs.suffix) {
-					ok = true
+			for _, pr := range [][2]string{{m[1], m[2]}, {m[2], m[1]}} {
+				if pr[1] == fieldParam && strings.HasPrefix(pr[0], nodeParam+".Schema.Fields[") && strings.HasSuffix(pr[0], ".Name") {
+					return true, true
 				}
 			}
-			return true
-		})
-		detail := fmt.Sprintf("isUsed does not look at %s (%s): the column is pruned although it is needed — results change or the plan breaks only when optimization is on", cs.caseConst, cs.what)
-		if !ok && narrowed != "" {
-			detail = fmt.Sprintf("isUsed looks at %s only under a narrower condition than the consumer needs (%s; %s): the column is pruned although it is needed", cs.caseConst, narrowed, cs.what)
+			return false, false
 		}
-		c.Decide(ok, "OPT4", key+"/"+cs.caseConst, fn.Decl.Pos(), 1, "consulted", detail)
-		narrowed = ""
-	}
-	// the plan root's own schema
-	rootOK := false
-	for _, st := range fn.Decl.Body.List {
-		if _, isLoop := st.(*ast.RangeStmt); isLoop || func() bool { _, f := st.(*ast.ForStmt); return f }() {
-			if comparesField(st, ".Name") && strings.Contains(core.FullStr(st), fn.Decl.Type.Params.List[1].Names[0].Name+".Schema.Fields") {
-				rootOK = true
+		outs, err := runDecl(in, fn, nil, "")
+		rootOK := err == nil && len(outs) > 0
+		for _, o := range outs {
+			if o.Kind != "return" || len(o.Values) != 1 || !absint.IsTrue(o.Values[0]) {
+				rootOK = false
 			}
 		}
+		c.Decide(rootOK, "OPT4", key+"/root schema", fn.Decl.Pos(), len(outs), "output columns of the plan are used", "isUsed does not treat the plan's own output columns as used")
 	}
-	c.Decide(rootOK, "OPT4", key+"/root schema", fn.Decl.Pos(), 1, "output columns of the plan are used", "isUsed does not treat the plan's own output columns as used")
 	c.Floor("OPT4", 7, "6 consumers + root")
+	_ = info
 }
 
 // checkPruners (OPT3).
